@@ -506,7 +506,7 @@ func (e *Env) Build(n *Node) templ.Component {
 		return hwNonce(e.kid(n, 0))
 	case "hwclear":
 		return hwClear(e.kid(n, 0))
-	case "rawscript", "usescript", "onclick", "ontwo", "oncond", "onhx", "classof", "classtwo", "classcond", "ashape":
+	case "rawscript", "usescript", "onclick", "ontwo", "oncond", "onhx", "classof", "classtwo", "classcond", "ashape", "bshape":
 		return e.buildC12(n)
 	case "shape":
 		return e.buildShape(n)
